@@ -57,8 +57,20 @@ type concOp struct {
 
 var attenuateVariant int64
 
+const concPre = 15
+
+// the bundle the current pair was parsed into (the other target is derived from it by Select)
+var concParent *bundle.Bundle
+
 var concOps = []concOp{
-	{"Bundle.AddTokens", true, func(e *concEnv, b *bundle.Bundle) { b.AddTokens(e.extra) }},
+	{"Bundle.AddTokens", true, func(e *concEnv, b *bundle.Bundle) {
+		// the parent and a bundle derived from it add DIFFERENT entries: neither may end up holding the other's
+		if b == concParent {
+			b.AddTokens(e.extra)
+		} else {
+			b.AddTokens("fo1_derived")
+		}
+	}},
 	{"Bundle.Filter", true, func(e *concEnv, b *bundle.Bundle) { b.Filter(bundle.KeepAll) }},
 	{"Bundle.Attenuate", true, func(e *concEnv, b *bundle.Bundle) {
 		// also the early-exit paths: no caveats to add, nothing to add them to (an empty selection shares the lock)
@@ -110,6 +122,12 @@ var concOps = []concOp{
 // runPair: g goroutines per op, iters calls each, half on the bundle and half on a Select-derived one.
 func runPair(e *concEnv, a, w concOp, g, iters int, watchdog time.Duration) string {
 	b, _ := bundle.ParseBundle(concLoc, e.hdr)
+	concParent = b
+	// (entries added one by one before the selection: 2 parsed + 15 gives length 17 in an array of 32 - a derived
+	// bundle that shared the parent's backing array would write into those 15 spare slots)
+	for k := 0; k < concPre; k++ {
+		b.AddTokens(e.extra)
+	}
 	derived := b.Select(bundle.KeepAll)
 	var wg sync.WaitGroup
 	var addCalls int64
@@ -158,6 +176,20 @@ func runPair(e *concEnv, a, w concOp, g, iters int, watchdog time.Duration) stri
 		if got := b.Len(); got < want || (extra == 0 && a.name != "Bundle.AddTokens" && got != want) {
 			return fmt.Sprintf("lost-update(have=%d,want=%d)", got, want)
 		}
+		// ... and they are its OWN entries: nothing the derived bundle added shows up in the parent, none of the
+		// parent's were overwritten (a derived bundle must not share the parent's backing array)
+		own, foreign := 0, 0
+		for _, t := range strings.Split(b.String(), ",") {
+			switch t {
+			case e.extra:
+				own++
+			case "fo1_derived":
+				foreign++
+			}
+		}
+		if foreign != 0 || own != int(atomic.LoadInt64(&addCalls))+concPre {
+			return fmt.Sprintf("lost-update(own=%d,foreign=%d,want=%d)", own, foreign, atomic.LoadInt64(&addCalls)+concPre)
+		}
 	}
 	return "ok"
 }
@@ -198,6 +230,13 @@ func famConc(r *Rng, o *Out, tier string) {
 			}
 			fmt.Fprintf(os.Stderr, "conc pair %s x %s\n", a.name, w.name)
 			res := runPair(e, a, w, gg, ii, ww)
+			if a.name == "Bundle.AddTokens" && w.name == "Bundle.AddTokens" {
+				// which of the two first appends (parent's, derived bundle's) lands last is a coin flip: repeat, so
+				// that a derived bundle sharing the parent's array is seen
+				for k := 0; k < 11 && res == "ok"; k++ {
+					res = runPair(e, a, w, gg, ii/3+1, ww)
+				}
+			}
 			o.count("pair")
 			o.count("res." + strings.SplitN(res, "(", 2)[0])
 			if res == "hang" {
